@@ -117,6 +117,10 @@ func vpC19Pairs(k int) NaturalLanguageValues {
 			vpAssume(e.Ref != t)
 		}
 		// texts from an alphabet with a case pair: texts differing only in letter case are different texts
+		if vpBool() {
+			n = append(n, LangRefValue{Ref: t, Value: Content{}}) // an empty text is a text: its tag counts
+			continue
+		}
 		n = append(n, LangRefValue{Ref: t, Value: Content{vpC19Texts[vpRange(0, 2)]}})
 	}
 	return n
